@@ -890,6 +890,25 @@ func (e *Env) evalCall(n *ast.CallExpr) Val {
 		n2 := *e
 		n2.st = e.loopPre
 		return n2.eval(n.Args[0])
+	case "preOf":
+		// preOf(N, e): e evaluated in the state in which loop N was most recently entered on this path (before its first iteration)
+		lit, ok := n.Args[0].(*ast.BasicLit)
+		if !ok || e.fr == nil {
+			e.fail("preOf(N, expr) needs a literal loop ordinal")
+		}
+		ord, _ := strconv.Atoi(lit.Value)
+		var pst *State
+		for h, o := range e.fr.loops.ordinal {
+			if o == ord {
+				pst = e.fr.loopPre[h]
+			}
+		}
+		if pst == nil {
+			e.fail("preOf(%d, ...): loop %d has not been entered on this path", ord, ord)
+		}
+		n2 := *e
+		n2.st = pst
+		return n2.eval(n.Args[1])
 	case "unboxRef":
 		// unboxRef(x, "T"): the reference (pointer, map, chan) boxed in interface value x, for dynamic type T
 		lit, ok := n.Args[1].(*ast.BasicLit)
